@@ -107,4 +107,12 @@ var Registry = map[string]func(c *Ctx, arg string) error{
 		RunWorld(c)
 		return nil
 	},
+	"store": func(c *Ctx, arg string) error {
+		RunStore(c)
+		return nil
+	},
+	"kvexec": func(c *Ctx, arg string) error {
+		RunKVExec(c)
+		return nil
+	},
 }
